@@ -153,14 +153,14 @@ def execWord (c : Core) : Core × Bool :=
   let w := word c.addr
   let a := c.regs.get (Sig.selA w c.ir)
   let lastBus := if w.busen then c.bus.read a else 0#8
-  let waitR := w.busen && decide (a.toNat ≤ C.waitTop)
+  let waitR := w.busen && decide (a.toNat ≤ C.waitTopR)
   let inA := if w.maluia then lastBus else a
   let inB := if w.maluib then Sig.bConst w else c.regs.get (Sig.selB w c.ir)
   let out := Emu2a.alu w.alus inA inB (flagBit c.regs.r4 C.flagC)
   let pendReg := if w.mrgwe then some (Sig.selW w c.ir) else c.pendReg
   let pendFlag := if w.mchflg then true else c.pendFlag
   let bus := if w.buswr then c.bus.write a out.out else c.bus
-  let waitW := w.buswr && decide (a.toNat ≤ C.waitTop)
+  let waitW := w.buswr && decide (a.toNat ≤ C.waitTopW)
   ({ c with lastBus := lastBus, alu := out, pendReg := pendReg, pendFlag := pendFlag, bus := bus },
    waitR || waitW)
 
